@@ -240,9 +240,15 @@ func execC12(c C12Case) *Failure {
 		case "regres":
 			r.ver = int(verSeq.Add(1))
 			tag := fmt.Sprintf("%s:v%d", uri, r.ver)
-			w.Srv.RegisterResource(&mcp.Resource{URI: uri, Name: name, Description: tag}, func(ctx context.Context, req *mcp.ReadResourceRequest) (mcp.ResourceContents, error) {
-				return mcp.TextResourceContents{URI: uri, Text: tag}, nil
-			})
+			if r.ver%2 == 0 {
+				w.Srv.RegisterResources(&mcp.Resource{URI: uri, Name: name, Description: tag}, func(ctx context.Context, req *mcp.ReadResourceRequest) ([]mcp.ResourceContents, error) {
+					return []mcp.ResourceContents{mcp.TextResourceContents{URI: uri, Text: tag}}, nil
+				})
+			} else {
+				w.Srv.RegisterResource(&mcp.Resource{URI: uri, Name: name, Description: tag}, func(ctx context.Context, req *mcp.ReadResourceRequest) (mcp.ResourceContents, error) {
+					return mcp.TextResourceContents{URI: uri, Text: tag}, nil
+				})
+			}
 		case "regresnil":
 			// a registration without a handler: whether it is refused or kept (as an entry that cannot be read) is the library's
 			// choice; either way the registry stays well-formed
